@@ -20,6 +20,7 @@ CASES = {
     'entry-ops': {'ops': ENTRY_OPS, 'history': 1, 'pad': True, 'cfg': {'entries': 2, 'alternatives': 2, 'no_version': True, 'ws_styles': 4}},
     'rel-ops':   {'ops': REL_OPS, 'history': 1, 'cfg': {'entries': 1, 'alternatives': 2, 'version_kinds': 1, 'ws_styles': 2}},
     'rel-ops-rich': {'ops': REL_OPS, 'history': 1, 'cfg': {'entries': 1, 'alternatives': 1, 'archqual': True, 'archqual_space': True, 'archs': 1, 'negation': False, 'profile_groups': 1, 'profile_terms': 1, 'version_kinds': 1, 'ws_styles': 2}},
+    'pre-comma': {'ops': ['remove_entry', 'entry_remove', 'insert', 'replace'], 'history': 1, 'cfg': {'entries': 3, 'alternatives': 1, 'no_version': True, 'pre_comma': True, 'ws_styles': 2}},
     'substvar':  {'ops': ROOT_OPS + ['entry_remove'], 'history': 1, 'cfg': {'entries': 2, 'alternatives': 1, 'no_version': True, 'substvars': True, 'ws_styles': 1}},
     'mixed':     {'ops': ROOT_OPS + ENTRY_OPS + ['set_version', 'set_architectures', 'add_profile', 'relation_remove'], 'history': 2, 'cfg': {'entries': 1, 'alternatives': 1, 'no_version': True, 'ws_styles': 1}},
     'built-entry': {'ops': ['push2', 'entry_remove_relation', 'relation_remove', 'entry_push', 'entry_replace'], 'history': 2, 'cfg': {'entries': 1, 'alternatives': 1, 'no_version': True, 'ws_styles': 1}, 'allow_empty': True},
